@@ -27,68 +27,83 @@ Proof.
   - destruct (String.eqb k2 k'); [reflexivity|exact IH].
 Qed.
 
+Lemma keys_assoc_set_existing {A} k (v : A) l : In k (keys l) -> keys (assoc_set k v l) = keys l.
+Proof.
+  unfold keys. induction l as [|[k' v'] l IH]; cbn; [tauto|].
+  destruct (String.eqb k k') eqn:E; cbn.
+  - apply String.eqb_eq in E. subst. reflexivity.
+  - intros [H|H]; [apply String.eqb_neq in E; congruence|]. rewrite IH; auto.
+Qed.
+
 Section Proofs.
   Variables M Out : Type.
-  Variable parse : string -> string -> option M.
+  Variable parse : list string -> string -> string -> option M.
   Variable extract : (string -> option M) -> Out * list string.
   (* the extraction sees the file manager only through the answers it gets *)
   Hypothesis extract_ext : forall g h, (forall f, g f = h f) -> fst (extract g) = fst (extract h).
 
-  Notation sstate := Model.Session.sstate.
-  Notation coherent := Model.Session.coherent.
+  Notation coherent := (Model.Session.coherent).
 
   Lemma fetch_coherent st : coherent st -> forall f, fetch M parse st f = read M parse (disk st) f.
   Proof.
     intros Hc f. unfold fetch, read.
-    destruct (assoc f (cache st)) as [c|] eqn:E; [|reflexivity].
-    rewrite (Hc f c E). reflexivity.
+    destruct (assoc f (cache st)) as [[c ns]|] eqn:E; [|reflexivity].
+    destruct (Hc f c ns E) as [Hd ->]. rewrite Hd. reflexivity.
   Qed.
 
   Lemma rebuild_is_fresh st : coherent st -> fst (rebuild M Out parse extract st) = fresh_build M Out parse extract (disk st).
   Proof. intros Hc. unfold rebuild, fresh_build. cbn. apply extract_ext. apply fetch_coherent. exact Hc. Qed.
 
-  Lemma update_coherent f c st : coherent st -> coherent (update M parse f c st).
+  (* updating a file that exists keeps the set of names, hence every other cached resolution *)
+  Lemma update_coherent f c st : In f (names (disk st)) -> coherent st -> coherent (update M parse f c st).
   Proof.
-    intros Hc g d. unfold update; cbn.
+    intros Hin Hc g d ns. unfold update; cbn [disk cache].
+    assert (Hn : names (assoc_set f c (disk st)) = names (disk st)) by (apply keys_assoc_set_existing; exact Hin).
+    rewrite Hn.
     destruct (string_dec g f) as [->|Hne].
-    - rewrite assoc_set_same. destruct (parse f c).
-      + rewrite assoc_set_same. auto.
+    - rewrite assoc_set_same. destruct (parse (names (disk st)) f c).
+      + rewrite assoc_set_same. intros H; inversion H; subst. auto.
       + rewrite assoc_remove_same. discriminate.
-    - rewrite (assoc_set_other f g c (disk st) Hne). destruct (parse f c).
-      + rewrite (assoc_set_other f g c (cache st) Hne). apply Hc.
+    - rewrite (assoc_set_other f g c (disk st) Hne). destruct (parse (names (disk st)) f c).
+      + rewrite (assoc_set_other f g _ (cache st) Hne). apply Hc.
       + rewrite (assoc_remove_other f g (cache st) Hne). apply Hc.
   Qed.
+  Lemma update_names f c st : In f (names (disk st)) -> names (disk (update M parse f c st)) = names (disk st).
+  Proof. intros Hin. unfold update; cbn [disk]. apply keys_assoc_set_existing. exact Hin. Qed.
 
   Lemma cache_after_fetch_coherent dk ca f :
-    (forall g d, assoc g ca = Some d -> assoc g dk = Some d) ->
-    forall g d, assoc g (cache_after_fetch M parse dk ca f) = Some d -> assoc g dk = Some d.
+    (forall g d ns, assoc g ca = Some (d, ns) -> assoc g dk = Some d /\ ns = names dk) ->
+    forall g d ns, assoc g (cache_after_fetch M parse dk ca f) = Some (d, ns) -> assoc g dk = Some d /\ ns = names dk.
   Proof.
-    intros Hc g d. unfold cache_after_fetch.
+    intros Hc g d ns. unfold cache_after_fetch.
     destruct (assoc f ca); [apply Hc|].
     destruct (assoc f dk) as [c|] eqn:Ed; [|apply Hc].
-    destruct (parse f c); [|apply Hc].
+    destruct (parse (names dk) f c); [|apply Hc].
     destruct (string_dec g f) as [->|Hne].
-    - rewrite assoc_set_same. intros H; inversion H; subst. exact Ed.
-    - rewrite (assoc_set_other f g c ca Hne). apply Hc.
+    - rewrite assoc_set_same. intros H; inversion H; subst. auto.
+    - rewrite (assoc_set_other f g _ ca Hne). apply Hc.
   Qed.
 
   Lemma rebuild_coherent st : coherent st -> coherent (snd (rebuild M Out parse extract st)).
   Proof.
     intros Hc. unfold rebuild; cbn. unfold Model.Session.coherent; cbn.
     generalize (snd (extract (fetch M parse st))). intros fs.
-    assert (G : forall ca, (forall g d, assoc g ca = Some d -> assoc g (disk st) = Some d) ->
-                           forall g d, assoc g (fold_left (cache_after_fetch M parse (disk st)) fs ca) = Some d -> assoc g (disk st) = Some d).
+    assert (G : forall ca, (forall g d ns, assoc g ca = Some (d, ns) -> assoc g (disk st) = Some d /\ ns = names (disk st)) ->
+                           forall g d ns, assoc g (fold_left (cache_after_fetch M parse (disk st)) fs ca) = Some (d, ns) ->
+                                          assoc g (disk st) = Some d /\ ns = names (disk st)).
     { induction fs as [|f fs IH]; cbn; intros ca Hca; [exact Hca|].
       apply IH. apply cache_after_fetch_coherent. exact Hca. }
     apply G. exact Hc.
   Qed.
+  Lemma rebuild_disk st : disk (snd (rebuild M Out parse extract st)) = disk st.
+  Proof. reflexivity. Qed.
 
-  Theorem run_is_fresh ops : forall st, coherent st ->
+  Theorem run_is_fresh ops : forall st, coherent st -> updates_existing ops (names (disk st)) ->
     Forall (fun od => fst od = fresh_build M Out parse extract (snd od)) (run M Out parse extract (update M parse) ops st).
   Proof.
-    induction ops as [|[f c|] ops IH]; intros st Hc; cbn.
+    induction ops as [|[f c|] ops IH]; intros st Hc Hu; cbn.
     - constructor.
-    - apply IH. apply update_coherent. exact Hc.
-    - constructor; [cbn; apply rebuild_is_fresh; exact Hc|]. apply IH. apply rebuild_coherent. exact Hc.
+    - destruct Hu as [Hin Hu]. apply IH; [apply update_coherent; assumption|]. rewrite update_names; assumption.
+    - constructor; [cbn; apply rebuild_is_fresh; exact Hc|]. apply IH; [apply rebuild_coherent; exact Hc|]. exact Hu.
   Qed.
 End Proofs.
